@@ -551,7 +551,7 @@ func (s *State) evalIndexRangeExpression(left object.Object, leftIdx, rightIdx a
 	num := object.Len(left)
 	l, _ := Int64Value(leftIndex)
 	if l < 0 { // negative is relative to the end.
-		l = int64(num) + l
+		l = max(int64(num)+l, 0) // and clamped to the start.
 	}
 	var r int64
 	if nilRight {
